@@ -115,3 +115,13 @@ def after_prepare(reps_):
     for r in reps_:
         if isinstance(r, ForeignRep):
             r.transform()
+
+
+# stage 2 (byte-for-byte against `sfmodel faults`, which interprets `rraw` / `wraw` with lean/SfModel/FaultsRaw.lean): the raw rdwr workload on L1 formats
+L1_RAW = [("raw-pcm16le", 0x10040002, 2, 40, 4), ("au-pcm16", 0x030002, 2, 40, 4), ("wav-pcm16", 0x010002, 2, 40, 4), ("wav-float", 0x010006, 2, 24, 8),
+          ("raw-ulaw", 0x040010, 2, 40, 2), ("raw-pcm24", 0x10040003, 1, 24, 3)]
+
+
+def l1_raw_reps(quick, seed):
+    reps_ = [RawRep(*r) for r in L1_RAW]
+    return reps_[seed % 2::2] + [reps_[0]] if quick else reps_
